@@ -38,6 +38,9 @@ theorem sort_by_orders (ks : List (Bool × Bool × Cmp.Key)) (ix : Sorter.Ix) :
   Cmp.sort_by_orders ks ix
 
 /-- T1: the functions this property's mirror model follows have today the source text the model was written against. -/
-theorem tie : Tie.sameAll ["sort.Less", "sort.Sort", "sort.quickSort", "sort.doPivot", "sort.heapSort", "sort.siftDown", "sort.insertionSort", "sort.medianOfThree", "sort.maxDepth", "template.Comparable", "icolumn.Comparable", "fcolumn.Comparable", "bcolumn.Comparable", "scolumn.Comparable", "ecolumn.Comparable", "icolumn.Compare", "fcolumn.Compare", "bcolumn.Compare", "scolumn.Compare", "ecolumn.Compare", "qframe.Sort"] = true := by decide
+-- The comparators (`Comparable.Compare`, `Column.Comparable` of the five column packages) are not compared as text any
+-- more: their meaning is regenerated on every run (`Gen.compareAst`, `Gen.comparableFields`) and proved equal to the
+-- spec's `keyCmp` / key equality in `QF.Props.C03Compare` (`gen_compare_semantics`, `sorter_less_eq_rowLess`).
+theorem tie : Tie.sameAll ["sort.Less", "sort.Sort", "sort.quickSort", "sort.doPivot", "sort.heapSort", "sort.siftDown", "sort.insertionSort", "sort.medianOfThree", "sort.maxDepth", "qframe.Sort"] = true := by decide
 
 end QF.Props.C03
